@@ -8,7 +8,8 @@ mkdir -p work evidence replays
 rc=0
 ( cd harness && cp /repo/go.sum go.sum && go build -o afcheck ./cmd/afcheck ) || rc=1
 [ -x harness/afcheck ] && harness/afcheck consts -repo /repo -out coq/Gen/Consts.v || rc=1
-( cd coq && coq_makefile -f _CoqProject -o Makefile >/dev/null && timeout 3000 make -k -j16 2>&1 | tail -40 ) || rc=1
+tools/mkcoqproject.sh
+( cd coq && timeout 3000 make -k -j16 2>&1 | tail -40 ) || rc=1
 ocaml/build.sh || rc=1
 for m in harness-gcs harness-sftp; do
   if [ -d "$m" ]; then ( cd "$m" && ./build.sh ) || rc=1; fi
